@@ -195,7 +195,7 @@ def reset_bus():
 
 
 def run_internal(cfg, devs, speed=(1, 1), initial=0, stim=(), t_end=3_000_000_003, fail=None, adapters=None,
-                 on_start=None, inject=None):
+                 on_start=None, inject=None, delays=None, early=None):
     """runs the simulation on the internal bus; stim: [(real ns, device id)]; returns dict:
        per: {device: [(time, inputs)]}, error: None|str, tasks info"""
     from tickit.core.management.event_router import InverseWiring
@@ -225,8 +225,34 @@ def run_internal(cfg, devs, speed=(1, 1), initial=0, stim=(), t_end=3_000_000_00
         sched = MasterScheduler(InverseWiring.from_component_configs(configs), *get_interface("internal"),
                                 initial_time=initial, simulation_speed=speed[0] / speed[1])
         comps = [c() for c in configs]
-        tasks = [asyncio.create_task(c.run_forever(*get_interface("internal"))) for c in comps]
-        tasks.append(asyncio.create_task(sched.run_forever()))
+        tasks = []
+        if not delays:
+            tasks = [asyncio.create_task(c.run_forever(*get_interface("internal"))) for c in comps]
+            tasks.append(asyncio.create_task(sched.run_forever()))
+        else:
+            # start-up order: each participant is started at its own event-loop step
+            base0 = loop.steps
+            todo = [(delays.get(cid(c.name), 0), "comp", c) for c in comps] + [(delays.get("sched", 0), "sched", sched)]
+            early_todo = [early] if early else []
+
+            def start_hook(lp):
+                for item in list(todo):
+                    if lp.steps - base0 >= item[0]:
+                        todo.remove(item)
+                        if item[1] == "comp":
+                            tasks.append(lp.create_task(item[2].run_forever(*get_interface("internal"))))
+                        else:
+                            tasks.append(lp.create_task(item[2].run_forever()))
+                for e in list(early_todo):
+                    comp = REG.get(e[1])
+                    if lp.steps - base0 >= e[0] and comp is not None and hasattr(comp, "state_producer"):
+                        early_todo.remove(e)
+                        info["early_before_scheduler"] = not hasattr(sched, "state_consumer")
+                        tasks.append(lp.create_task(comp.raise_interrupt()))
+
+            loop.step_hook = start_hook
+            for _ in range(max(delays.values(), default=0) + 8):
+                await asyncio.sleep(0)
         info["sched"] = sched
         if on_start:
             on_start(loop, sched)
@@ -284,6 +310,7 @@ def run_internal(cfg, devs, speed=(1, 1), initial=0, stim=(), t_end=3_000_000_00
         ticklog.append((lv, t, roots))
     return dict(per=per, trace=[(c, t, dict(i)) for (c, t, i) in TRACE], trace_rt=list(TRACE_RT), ticklog=ticklog,
                 mticks=mticks, inj=info.get("inj"), steps=info.get("steps"),
+                early_before_scheduler=info.get("early_before_scheduler"),
                 error=err, errors=info.get("errors", []), tasks_done=info.get("tasks_done"))
 
 
@@ -391,15 +418,15 @@ def r_stim(cfg, stim):
     return L(out)
 
 
-def render_sim_case(cfg, devs, speed, initial, stim, t_end, run):
+def render_sim_case(cfg, devs, speed, initial, stim, t_end, run, pre=()):
     per = run["per"]
     obs = L(T(P(c), L(T(Zr(t), r_values(i)) for t, i in per.get(c, []))) for c in sorted(devices_of(cfg)))
     trace = L(T(P(c), Zr(t), r_values(i)) for (c, t, i) in run["trace"])
     ticklog = L(T(P(lv), Zr(t), L(P(r) for r in roots)) for (lv, t, roots) in run["ticklog"])
     mticks = L(T(Zr(t), Zr(r)) for (t, r) in run["mticks"])
-    return ("{| sc_cfg := %s; sc_devs := %s; sc_num := %s; sc_den := %s; sc_initial := %s; sc_stim := %s; "
+    return ("{| sc_cfg := %s; sc_devs := %s; sc_num := %s; sc_den := %s; sc_initial := %s; sc_pre := %s; sc_stim := %s; "
             "sc_end := %s; sc_observed := %s; sc_trace := %s; sc_ticklog := %s; sc_mticks := %s |}") % (
-        r_config(cfg), r_devs(devs), Zr(speed[0]), Zr(speed[1]), Zr(initial), r_stim(cfg, stim), Zr(t_end), obs,
+        r_config(cfg), r_devs(devs), Zr(speed[0]), Zr(speed[1]), Zr(initial), L(P(c) for c in pre), r_stim(cfg, stim), Zr(t_end), obs,
         trace, ticklog, mticks)
 
 
